@@ -210,8 +210,8 @@ impl<'de, 'a> Visitor<'de> for MapV<'a> {
     fn visit_map<A: MapAccess<'de>>(self, mut a: A) -> Result<Val, A::Error> {
         // (BTreeMap's visitor, unlike HashMap's, does not ask for a size hint)
         let mut out = Vec::new();
-        while let Some(k) = a.next_key_seed(RKey { kt: self.kt, cfg: self.cfg })? {
-            let v = a.next_value_seed(R { ty: self.vt, cfg: self.cfg })?;
+        // `while let Some((k, v)) = map.next_entry()?` — what BTreeMap / HashMap do
+        while let Some((k, v)) = a.next_entry_seed(RKey { kt: self.kt, cfg: self.cfg }, R { ty: self.vt, cfg: self.cfg })? {
             out.push((k, v));
             if self.cfg.flag(H8_STOP) {
                 self.cfg.stops.set(self.cfg.stops.get() + 1);
